@@ -176,3 +176,10 @@ package method_evaluator
 //@   inline 2 1
 //@   witness assert#0 "x = [1,2].collect\n"
 //@   witness assert#1 "x = [1,2].collect\n"
+//@ func ti/eval/method_evaluator.conditioningMethodReturn
+//@   safe idx,slice
+//@   inline 2 1
+//@ func ti/eval/method_evaluator.conditioningMethodReturn$1
+//@   requires idx >= 0
+//@   safe idx,slice
+//@   witness idx#0 "x = [1,2].last(1, 2)\n"
